@@ -216,3 +216,43 @@ Proof.
   match goal with |- map_render ?s1 ?d1 = map_render ?s2 ?d2 =>
     transitivity (map_render s1 d2); [apply map_render_ext; cbn; auto | unfold map_render; reflexivity] end.
 Qed.
+
+(* ---------------------------------------------------------------- schedule independence of a whole run *)
+Lemma generate_oracle_unspecified : forall {St Data : Type} (make : St -> pview -> string -> mres Data St) render sc c o1 o2 hw disk st,
+  specified c = false ->
+  generate make render (list_types_of sc) c o1 hw disk st = generate make render (list_types_of sc) c o2 hw disk st.
+Proof. intros. unfold generate. rewrite !confirm_unspecified by auto. reflexivity. Qed.
+
+(* for -file= / -type=*, all four subcommands: two runs from the same directory state that differ only in the
+   iteration order of every Go map produce the same source map (rest: outside the class of K_rest_alias_dup) *)
+Theorem schedule_independent_unspecified : forall p prior c o1 o2,
+  legal o1 -> legal o2 -> specified c = false ->
+  (c_sub c = CRest -> rest_pkg_ok (p_hw p)) ->
+  run_generate o1 p prior c = run_generate o2 p prior c.
+Proof.
+  intros p prior c o1 o2 H1 H2 Hs Hrest. unfold run_generate.
+  destruct (c_sub c) eqn:Ec.
+  - apply generate_oracle_unspecified; auto.
+  - apply generate_oracle_unspecified; auto.
+  - transitivity (generate (rest_make o2 c) rrender (list_types_of CRest) c o1 (p_hw p) (disk_of p prior) rstate0).
+    + exact (generate_rel (rest_make o1 c) rrender (rest_make o2 c) rrender c (p_hw p) (disk_of p prior)
+               (fun s1 s2 ov T => rest_make_rel o1 o2 c (p_hw p) (disk_of p prior) s1 s2 ov T H1 H2 (Hrest eq_refl))
+               (list_types_of CRest) o1 rstate0 rstate0).
+    + apply (generate_oracle_unspecified (rest_make o2 c) rrender CRest c o1 o2); auto.
+  - set (dv := pview_of (mk_view (p_dest p) (p_destaux p) [])).
+    assert (Hrel : forall s1 s2 ov T,
+      same_src map_render map_render
+        (map_make o1 c (p_destname p) dv s1 (pview_of (mk_view (p_hw p) (disk_of p prior) ov)) T)
+        (map_make o2 c (p_destname p) dv s2 (pview_of (mk_view (p_hw p) (disk_of p prior) ov)) T)).
+    { intros s1 s2 ov T.
+      pose proof (map_make_state_indep o1 c (p_destname p) dv s1 s2 (pview_of (mk_view (p_hw p) (disk_of p prior) ov)) T) as Hst.
+      pose proof (map_make_oracle o1 o2 c (p_destname p) dv s2 (pview_of (mk_view (p_hw p) (disk_of p prior) ov)) T H1 H2) as Ho.
+      destruct (map_make o1 c (p_destname p) dv s1 (pview_of (mk_view (p_hw p) (disk_of p prior) ov)) T) as [d1 b1 t1|t1|];
+        destruct (map_make o1 c (p_destname p) dv s2 (pview_of (mk_view (p_hw p) (disk_of p prior) ov)) T) as [d2 b2 t2|t2|]; cbn in Hst; try contradiction;
+        destruct (map_make o2 c (p_destname p) dv s2 (pview_of (mk_view (p_hw p) (disk_of p prior) ov)) T) as [d3 b3 t3|t3|]; cbn in Ho; try contradiction; cbn; auto.
+      destruct Hst as [-> [-> Hr]]. destruct Ho as [-> Hr2]. split; auto. rewrite Hr. exact Hr2. }
+    transitivity (generate (map_make o2 c (p_destname p) dv) map_render (list_types_of CMap) c o1 (p_hw p) (disk_of p prior) mstate0).
+    + exact (generate_rel (map_make o1 c (p_destname p) dv) map_render (map_make o2 c (p_destname p) dv) map_render c (p_hw p) (disk_of p prior)
+               Hrel (list_types_of CMap) o1 mstate0 mstate0).
+    + apply (generate_oracle_unspecified (map_make o2 c (p_destname p) dv) map_render CMap c o1 o2); auto.
+Qed.
